@@ -44,6 +44,13 @@ class TagAtoms(SymAtoms):
         return c
 
     def wrap(self, **kw):
+        # the structure whose distances are evaluated must be the given one up to lattice vectors of *periodic* directions:
+        # folding along a non-periodic direction moves atoms physically (and folding fewer directions leaves atoms outside)
+        own = list(self.pbc)
+        eff = kw.get("pbc")
+        eff = own if eff is None else ([eff] * 3 if isinstance(eff, (bool, SB)) or np.ndim(eff) == 0 else list(eff))
+        same = z3.And(*[z3bool(eff[k]) == z3bool(own[k]) for k in range(3)]) if len(eff) == 3 else z3.BoolVal(False)
+        cur().prove("call[wrap].pre.folds-exactly-the-periodic-directions", same)
         super().wrap(**kw)
         self.inside = True
 
